@@ -31,3 +31,7 @@ func VerifGRPCParseTimeout(timeout string) (time.Duration, bool, error) {
 
 // VerifConnectCodeToHTTP exposes connectCodeToHTTP.
 func VerifConnectCodeToHTTP(code Code) int { return connectCodeToHTTP(code) }
+
+// VerifErrorMetaAllocated reports whether the error's metadata map exists yet
+// (Meta allocates it on first use, which writes to the error value).
+func VerifErrorMetaAllocated(err *Error) bool { return err.meta != nil }
